@@ -12,7 +12,8 @@
       call (`lo`); from `next` on slots are unowned, unfilled and INITIAL, except that slot `next` may
       be CLOSED once `close()` was called (`hi`); a PUBLISHED slot is filled, its payload is the item
       recorded at fill time and its futex word's message knows the slot's publication (`pub`);
-    * `closed` implies that no publish call is in progress; a non-zero futex word lies below `cap`;
+    * a non-zero futex word lies below `cap` (`closed` implies that no publish call is in progress:
+      consequence `Main.nopub` of `TInv`);
     * per consumer: everything below its cursor is PUBLISHED and known to it (`cons`), what it was
       handed so far is exactly the items of indices `0 .. base-1` in order (`got`);
     * `wake`: a thread asleep in futex_wait on slot `j` either legitimately waits (status INITIAL,
@@ -32,7 +33,7 @@ def stOf (s : State) (i : Nat) : Nat := status (s.word i)
 /-- consumer of thread `t` examining slot `j` of its range `[b, e)` -/
 def KInv (s : State) (t b e j : Nat) : Prop :=
   s.cur t = b ∧ b ≤ j ∧ j < e ∧ e ≤ s.cap ∧
-  ∀ i, b ≤ i → i < j → stOf s i = stPublished ∧ s.hb.acqp t i = true
+  ∀ i, b ≤ i → i < j → stOf s i = stPublished ∧ (s.hb.acqp t i = true ∨ s.hb.seen t i = true)
 
 /-- publisher (`sv = PUBLISHED`) / closer (`sv = CLOSED`) `t` on piece `[b, pe)` of a range ending at
 `e`, having stored the status into `[b, j)` -/
@@ -64,7 +65,7 @@ def TInv (s : State) (t : Nat) : Pc → Prop
   | .kCas b e j v => KInv s t b e j ∧ status v = stInitial ∧ v ≤ noWaiterMax
   | .kFwait b e j v => KInv s t b e j ∧ status v = stInitial ∧ waiterUnit ≤ v
   | .kAcq b e m => s.cur t = b ∧ b + m ≤ e ∧
-      (∀ i, b ≤ i → i < b + m → stOf s i = stPublished ∧ s.hb.acqp t i = true) ∧
+      (∀ i, b ≤ i → i < b + m → stOf s i = stPublished ∧ (s.hb.acqp t i = true ∨ s.hb.seen t i = true)) ∧
       (b + m < e → stOf s (b + m) = stClosed)
   | .kRet b e m => s.cur t = b + m ∧ b + m ≤ e ∧ (b + m < e → stOf s (b + m) = stClosed)
   | .rSt _ | .rNext => False
@@ -110,8 +111,8 @@ structure Main (s : State) : Prop where
         (stOf s i = stInitial ∨ (stOf s i = stClosed ∧ s.closed = true ∧ i = s.next))
   lo : ∀ i, i < s.next → ∃ t, s.own i = some t ∧ (stOf s i = stPublished ∨ (s.pc t).pending i)
   pub : ∀ i, stOf s i = stPublished → s.filled i = true ∧ s.val i = s.item i ∧ s.hb.msg i i = true ∧ i < s.next
-  nopub : s.closed = true → ∀ u, (s.pc u).publishing = false
   capw : ∀ i, s.word i ≠ 0 → i < s.cap
+  relsub : ∀ t i, s.hb.relv t i = true → s.hb.seen t i = true
   cons : ∀ t i, i < s.cur t → stOf s i = stPublished ∧ s.hb.seen t i = true
   got : ∀ t, s.got t = (List.range (base s t)).map (fun i => (i, s.item i))
   basele : ∀ t, base s t ≤ s.cur t
